@@ -610,11 +610,19 @@ impl FormattedChunk {
                 Some(line) => write!(w, "{}", line),
                 None => w.write_all(b"???"),
             },
+            #[cfg(log4rs_verif)]
+            FormattedChunk::Thread => w.write_all(crate::verif_hooks::FAKE_THREAD_NAME.as_bytes()),
+            #[cfg(not(log4rs_verif))]
             FormattedChunk::Thread => {
                 w.write_all(thread::current().name().unwrap_or("unnamed").as_bytes())
             }
             FormattedChunk::ThreadId => w.write_all(thread_id::get().to_string().as_bytes()),
             FormattedChunk::ProcessId => w.write_all(process::id().to_string().as_bytes()),
+            #[cfg(log4rs_verif)]
+            FormattedChunk::SystemThreadId => {
+                w.write_all(crate::verif_hooks::FAKE_THREAD_ID.to_string().as_bytes())
+            }
+            #[cfg(not(log4rs_verif))]
             FormattedChunk::SystemThreadId => {
                 TID.with(|tid| w.write_all(tid.to_string().as_bytes()))
             }
@@ -706,6 +714,71 @@ impl PatternEncoder {
             pattern: pattern.to_owned(),
         }
     }
+}
+
+/// A width/fill/alignment specification for `verif_encode_padded`.
+#[cfg(log4rs_verif)]
+#[doc(hidden)]
+#[derive(Clone, Copy)]
+pub struct VerifSpec {
+    pub fill: char,
+    pub right: bool,
+    pub min_width: Option<usize>,
+    pub max_width: Option<usize>,
+}
+
+#[cfg(log4rs_verif)]
+impl VerifSpec {
+    fn params(&self) -> Parameters {
+        Parameters {
+            fill: self.fill,
+            align: if self.right {
+                Alignment::Right
+            } else {
+                Alignment::Left
+            },
+            min_width: self.min_width,
+            max_width: self.max_width,
+        }
+    }
+}
+
+/// Runs the real `Chunk::encode` on a group `{(<texts>):<outer>}` whose content is the given
+/// texts, one literal chunk (hence one write) each; with `inner = Some((spec, k))` the first
+/// `k` texts sit in a nested group `{(..):<spec>}` inside the outer one.
+#[cfg(log4rs_verif)]
+#[doc(hidden)]
+pub fn verif_encode_padded(
+    w: &mut dyn encode::Write,
+    record: &Record,
+    texts: &[&str],
+    outer: VerifSpec,
+    inner: Option<(VerifSpec, usize)>,
+) -> io::Result<()> {
+    let mut chunks: Vec<Chunk> = Vec::with_capacity(texts.len() + 1);
+    let mut rest = texts;
+    if let Some((spec, k)) = inner {
+        let mut nested: Vec<Chunk> = Vec::with_capacity(k);
+        for t in &texts[..k] {
+            nested.push(Chunk::Text((*t).to_owned()));
+        }
+        chunks.push(Chunk::Formatted {
+            chunk: FormattedChunk::Align(nested),
+            params: spec.params(),
+        });
+        rest = &texts[k..];
+    }
+    for t in rest {
+        chunks.push(Chunk::Text((*t).to_owned()));
+    }
+    let group = Chunk::Formatted {
+        chunk: FormattedChunk::Align(chunks),
+        params: outer.params(),
+    };
+    let res = group.encode(w, record);
+    // the chunk tree is leaked: its drop glue is not the subject
+    std::mem::forget(group);
+    res
 }
 
 /// A deserializer for the `PatternEncoder`.
